@@ -6,6 +6,7 @@ package sx
 
 import (
 	"fmt"
+	"os"
 	"go/token"
 	"go/types"
 	"runtime"
@@ -185,6 +186,9 @@ func (i *interpreter) concretize(t *Term, what string) uint64 {
 	if t.op == OConst {
 		return t.val
 	}
+	if i.ex.run.Cfg.Debug && len(i.decisions) >= len(i.prefix) {
+		fmt.Fprintf(os.Stderr, "CONCRETIZE %s %s at %s in %v\n", what, t.String(), i.where(i.lastFrame), i.lastFrame.fn)
+	}
 	for tries := 0; ; tries++ {
 		if tries > 4096 {
 			panic(pathAbort{"unsupported", "concretize: too many values for " + what})
@@ -320,7 +324,13 @@ func (i *interpreter) visitInstr(fr *frame, instr ssa.Instruction) continuation 
 		fr.env[instr] = fr.get(instr.Tuple).(tuple)[instr.Index]
 
 	case *ssa.Slice:
-		fr.env[instr] = i.slice(fr.get(instr.X), fr.get(instr.Low), fr.get(instr.High), fr.get(instr.Max))
+		w := func(v ssa.Value) value {
+			if v == nil {
+				return nil
+			}
+			return i.widen(fr.get(v), v.Type())
+		}
+		fr.env[instr] = i.slice(fr.get(instr.X), w(instr.Low), w(instr.High), w(instr.Max))
 
 	case *ssa.Return:
 		switch len(instr.Results) {
@@ -391,8 +401,8 @@ func (i *interpreter) visitInstr(fr *frame, instr ssa.Instruction) continuation 
 		*addr = i.zero(deref(instr.Type()))
 
 	case *ssa.MakeSlice:
-		c := i.concInt(fr.get(instr.Cap), "make cap")
-		l := i.concInt(fr.get(instr.Len), "make len")
+		c := i.concInt(i.widen(fr.get(instr.Cap), instr.Cap.Type()), "make cap")
+		l := i.concInt(i.widen(fr.get(instr.Len), instr.Len.Type()), "make len")
 		if l < 0 || c < l || c > 1<<28 {
 			rtPanic("makeslice: len out of range")
 		}
@@ -433,14 +443,22 @@ func (i *interpreter) visitInstr(fr *frame, instr ssa.Instruction) continuation 
 		x := fr.get(instr.X)
 		switch x := x.(type) {
 		case []value:
-			idx := i.index(fr.get(instr.Index), len(x))
+			if r := i.symElemRef(instr, x, i.widen(fr.get(instr.Index), instr.Index.Type())); r != nil {
+				fr.env[instr] = r
+				break
+			}
+			idx := i.index(i.widen(fr.get(instr.Index), instr.Index.Type()), len(x))
 			fr.env[instr] = &x[idx]
 		case *value:
 			if x == nil {
 				nilDeref()
 			}
 			a := (*x).(array)
-			idx := i.index(fr.get(instr.Index), len(a))
+			if r := i.symElemRef(instr, a, i.widen(fr.get(instr.Index), instr.Index.Type())); r != nil {
+				fr.env[instr] = r
+				break
+			}
+			idx := i.index(i.widen(fr.get(instr.Index), instr.Index.Type()), len(a))
 			fr.env[instr] = &a[idx]
 		default:
 			panic(fmt.Sprintf("unexpected x type in IndexAddr: %T", x))
@@ -450,9 +468,9 @@ func (i *interpreter) visitInstr(fr *frame, instr ssa.Instruction) continuation 
 		x := fr.get(instr.X)
 		switch x := x.(type) {
 		case array:
-			fr.env[instr] = i.indexArray(x, fr.get(instr.Index))
+			fr.env[instr] = i.indexArray(x, i.widen(fr.get(instr.Index), instr.Index.Type()))
 		case string, symstr:
-			idx := i.index(fr.get(instr.Index), strLen(x))
+			idx := i.index(i.widen(fr.get(instr.Index), instr.Index.Type()), strLen(x))
 			fr.env[instr] = i.strAt(x, idx)
 		default:
 			panic(fmt.Sprintf("unexpected x type in Index: %T", x))
@@ -494,6 +512,19 @@ func deref(t types.Type) types.Type {
 	panic("deref of non-pointer " + t.String())
 }
 
+// widen extends an integer operand to 64 bits according to the signedness of
+// its static type, so that indices and sizes are compared as Go does.
+func (i *interpreter) widen(v value, t types.Type) value {
+	x, ok := v.(*Term)
+	if !ok || x.sort == SBV64 {
+		return v
+	}
+	if k, ok := scalarKind(t); ok && !k.signed {
+		return i.b.ZExt(x, SBV64)
+	}
+	return i.b.SExt(x, SBV64)
+}
+
 // index bounds-checks an index and returns it as an int, forking on the
 // feasible values of a symbolic index.
 func (i *interpreter) index(idx value, n int) int {
@@ -505,12 +536,10 @@ func (i *interpreter) index(idx value, n int) int {
 		}
 		return int(v)
 	}
-	// in range?
-	w := i.b.ZExt(t, SBV64)
-	if t.sort != SBV64 {
-		// narrower index types: zero/sign extension is decided by the caller's
-		// conversion; treat the raw bits as unsigned here (Go indices are
-		// non-negative when in range).
+	// in range? (operands were widened to 64 bits by the caller; a negative
+	// index is a huge unsigned value)
+	w := t
+	if w.sort != SBV64 {
 		w = i.b.ZExt(t, SBV64)
 	}
 	inRange := i.b.Cmp(OULt, w, i.b.BV(SBV64, uint64(n)))
@@ -518,6 +547,44 @@ func (i *interpreter) index(idx value, n int) int {
 		rtPanic(fmt.Sprintf("index out of range [symbolic] with length %d", n))
 	}
 	return int(i.concretize(t, "index"))
+}
+
+// symRef is the address of a[idx] for a symbolic idx; it can only be loaded.
+type symRef struct {
+	a   []value
+	idx *Term
+}
+
+// symElemRef returns a load-only reference when a table of scalars is
+// indexed by a symbolic value and the address is only ever loaded from.
+func (i *interpreter) symElemRef(instr *ssa.IndexAddr, a []value, idx value) value {
+	t := idx.(*Term)
+	if t.op == OConst || len(a) == 0 || len(a) > 4096 {
+		return nil
+	}
+	refs := instr.Referrers()
+	if refs == nil || len(*refs) == 0 {
+		return nil
+	}
+	for _, r := range *refs {
+		u, ok := r.(*ssa.UnOp)
+		if !ok || u.Op != token.MUL {
+			return nil
+		}
+	}
+	for _, e := range a {
+		if _, ok := e.(*Term); !ok {
+			return nil
+		}
+	}
+	w := t
+	if w.sort != SBV64 {
+		w = i.b.ZExt(t, SBV64)
+	}
+	if !i.decide(i.b.Cmp(OULt, w, i.b.BV(SBV64, uint64(len(a))))) {
+		rtPanic(fmt.Sprintf("index out of range [symbolic] with length %d", len(a)))
+	}
+	return &symRef{a: a, idx: t}
 }
 
 // indexArray reads a[idx]; a symbolic index into an array of constants
